@@ -486,6 +486,10 @@ class EpochGen:
                 PROPS["C08"]._g_fail(g, {}, 0)
             elif k == "leaf":
                 g.leaf()
+            elif k == "badleaf":
+                # integer tensor with constant=False: must be refused while tracking
+                v = g.rand_vals(g.rand_shape(), g.choice(["i8", "i4", "b1"]))
+                g.emit({"k": "leaf", "out": g.new_h(), "arr": enc_arr(v), "constant": False, "fail": 1})
         # terminal
         terms = [h for h in terms if h in g.t]
         if o.get("include_members", True):
@@ -1094,3 +1098,93 @@ class C13(Prop):
 
 
 register(C13())
+
+
+# ======================================================================================
+# C10 - constant semantics
+# ======================================================================================
+class C10(Prop):
+    id = "C10"
+    title = "constant semantics"
+    rule = (
+        "DAG and mutation histories in which every leaf gets a dtype (float/int/bool) and constant in {None, True, False}, every op gets "
+        "constant in {None, True, False}, operands mix tensors, arrays and scalars; flags compared with the rules after every statement, "
+        "gradients with the tape (constant edges cut), and a twin run with eligible constant leaves replaced by plain arrays must give "
+        "bit-identical gradients.  non-trivial when a backward was judged in a history containing >=1 constant tensor; distinct by (kind, outcome)"
+    )
+    expected_probes = ["c10.flags_checked", "grad.judged_backward", "twin.compared"]
+
+    def generate(self, rng):
+        cfg = {
+            "lane": "plain",
+            "id_policy": "never",
+            "max_elems": rng.choice([6, 12]),
+            "max_ndim": rng.choice([1, 2, 3]),
+            "dtypes": rng.choice([["f8", "i8"], ["f8", "f4", "b1"], ["f8", "i4", "b1"], ["f8"]]),
+            "tape": True,
+            "exact": rng.random() < 0.5,
+            "const_flags": True,
+            "view_const_flags": rng.random() < 0.5,
+            "checkpoints": True,
+        }
+        if cfg["exact"]:
+            cfg["dtypes"] = [d for d in cfg["dtypes"] if d != "f4"]
+        g = Gen(rng, cfg)
+        w = {"view": 3, "adv": 1, "read": 5, "setitem": rng.choice([0, 2]), "iop": rng.choice([0, 1]), "ufunc": rng.choice([0, 1]), "setshape": 0, "drop": 0.3, "leaf": 2, "fail": 0, "badleaf": 0.5}
+        eg = EpochGen(g, {"weights": w, "max_events": rng.choice([8, 14]), "end": [("backward", 1)], "max_owners": 4})
+        eg.run(rng.randint(1, 2))
+        return {"prop": self.id, "cfg": cfg, "events": g.ev}
+
+    def observers(self, hist):
+        return [O.ConstOracle(), O.GradOracle("C10")]
+
+    def after_run(self, hist, w):
+        # twin: constant leaves that are only ever read as operands -> plain arrays
+        evs = hist["events"]
+        leafs = {e["out"]: e for e in evs if e["k"] == "leaf"}
+        elig = set()
+        for h, e in leafs.items():
+            d = e["arr"]["d"]
+            c = e.get("constant")
+            if c is True or (c is None and not d.startswith("f")):
+                elig.add(h)
+        for e in evs:
+            k = e["k"]
+            if k == "leaf":
+                continue
+            if k == "op":
+                from .ops import OPS
+
+                for n, r in enumerate(e.get("args", [])):
+                    if "t" in r and r["t"] in elig and (OPS[e["op"]].view_capable or OPS[e["op"]].rearrange or e.get("spell") == "m"):
+                        elig.discard(r["t"])
+            elif k == "inplace":
+                elig.discard(e["tgt"])
+            else:
+                for key in ("tgt", "h", "src"):
+                    if key in e:
+                        elig.discard(e[key])
+                for hh, _ in e.get("terms", []):
+                    elig.discard(hh)
+        if not elig:
+            return
+        import copy
+
+        ev2 = []
+        for e in evs:
+            if e["k"] == "leaf" and e["out"] in elig:
+                ev2.append({"k": "arr", "out": e["out"], "arr": e["arr"], "ro": False})
+                continue
+            e2 = copy.deepcopy(e)
+            for r in e2.get("args", []):
+                if "t" in r and r["t"] in elig:
+                    r["a"] = r.pop("t")
+            ev2.append(e2)
+        tw = run_twin(hist, ev2)
+        compare_checkpoints(w, tw, "C10", "C10.twin_arrays", grads="all", skip_handles=elig, what="constants-replaced-by-arrays")
+
+    def nontrivial(self, world):
+        return world.probes.get("grad.judged_backward", 0) > 0 and world.probes.get("c10.flags_checked", 0) > 0
+
+
+register(C10())
